@@ -33,7 +33,8 @@ Report(kind, viol, extra) ==
 Core(r) == IF r.k = "rec" THEN [k |-> "rec", head |-> r.head, lines |-> r.lines, qual |-> r.qual]
            ELSE IF "msg" \in DOMAIN r THEN [f \in DOMAIN r \ {"msg"} |-> r[f]] ELSE r
 \* line endings change byte offsets but not line numbers (C12)
-PosObs(e) == IF pp = "C12" /\ e.pos # <<>> THEN <<e.pos[1]>> ELSE e.pos
+\* (and where the reader stands after the end of input is not a property of the records)
+PosObs(e) == IF pp = "C12" THEN (IF e.res.k = "rec" /\ e.pos # <<>> THEN <<e.pos[1]>> ELSE <<>>) ELSE e.pos
 ObsOf(e) ==
   CASE e.op \in {"next", "iter"} -> <<[r |-> Core(e.res), pos |-> PosObs(e)]>>
     [] e.op \in {"set", "exact"} ->
